@@ -57,6 +57,24 @@ type Ctx struct {
 	caps        []string
 	Deadline    time.Time // soft budget; zero = none
 	ReplayFile  string
+	// ReplayKey: set by LoadReplayKey for checks without a dedicated replay path - the enumeration is re-run and only the
+	// recorded violation class is reported
+	ReplayKey   string
+	replayOther int
+}
+
+// LoadReplayKey reads the "key" of a replay artefact written by Finish.
+func (c *Ctx) LoadReplayKey() error {
+	b, err := os.ReadFile(c.ReplayFile)
+	if err != nil {
+		return err
+	}
+	var rf struct{ Key string }
+	if err := json.Unmarshal(b, &rf); err != nil || rf.Key == "" {
+		return fmt.Errorf("%s holds no violation key (%v)", c.ReplayFile, err)
+	}
+	c.ReplayKey = rf.Key
+	return nil
 }
 
 func NewCtx(id, tier, level string) *Ctx {
@@ -169,6 +187,10 @@ func (c *Ctx) Violate(key, what string, replay interface{}) {
 		return
 	}
 	c.seenKeys[key] = true
+	if c.ReplayKey != "" && key != c.ReplayKey {
+		c.replayOther++ // replay of one recorded class by re-running the enumeration: other classes are not this run's business
+		return
+	}
 	if _, ok := c.known[key]; ok {
 		c.knownHit[key] = true
 		return
@@ -217,6 +239,12 @@ func (c *Ctx) Finish() int {
 	os.MkdirAll(filepath.Join(VerifDir, "evidence"), 0755)
 	b, _ := json.MarshalIndent(ev, "", " ")
 	evPath := filepath.Join(VerifDir, "evidence", c.ID+".json")
+	if c.ReplayFile != "" {
+		evPath = filepath.Join(VerifDir, "evidence", c.ID+".replay.json") // a replay never overwrites the check's evidence
+		if c.ReplayKey != "" {
+			fmt.Printf("REPLAY property=%s key=%q reproduced=%v (by re-running the %s enumeration; %d other classes ignored)\n", c.ID, c.ReplayKey, len(c.violations) > 0 || c.knownHit[c.ReplayKey], c.Tier, c.replayOther)
+		}
+	}
 	if err := os.WriteFile(evPath, append(b, '\n'), 0644); err != nil {
 		fmt.Fprintf(os.Stderr, "cannot write evidence: %v\n", err)
 		return 2
